@@ -93,7 +93,7 @@ def scenarios(tier):
             continue
         out.append(Scenario(f"long history: readouts ~{s} octets, chunks of {c} from offset {o}, {total} octets", long_path(s, c, o, total, 1 if q else 2),
                             bounds={"stream_octets": f">= {total}", "readout_size": s, "chunk": c, "first_chunk": o or c, "free": "one digit in each of the last readouts"},
-                            domains=("p1",), frontier=3, workers=1 if q else 4, assumptions=A, replay_cap=6))
+                            domains=("p1",), frontier=3, workers=1, assumptions=A, replay_cap=6))
     return out
 
 
